@@ -4,7 +4,9 @@
 
 #include <etl/_config/all.hpp>
 
+#include <etl/_cmath/copysign.hpp>
 #include <etl/_concepts/integral.hpp>
+#include <etl/_limits/numeric_limits.hpp>
 #include <etl/_type_traits/is_constant_evaluated.hpp>
 #include <etl/_type_traits/is_same.hpp>
 
@@ -14,11 +16,14 @@ namespace detail {
 template <typename T>
 [[nodiscard]] constexpr auto rint_fallback(T arg) noexcept -> T
 {
-    if constexpr (sizeof(T) <= sizeof(long)) {
-        return static_cast<T>(static_cast<long>(arg));
-    } else {
-        return static_cast<T>(static_cast<long long>(arg));
+    // 2^(digits-1): from here on every value is integral; the comparison is false for NaN
+    constexpr auto big = T(1) / numeric_limits<T>::epsilon();
+    if (not(arg > -big and arg < big)) {
+        return arg;
     }
+    // adding and removing 2^(digits-1) rounds to an integral value, ties to even
+    auto const rounded = arg < T(0) ? (arg - big) + big : (arg + big) - big;
+    return etl::copysign(rounded, arg);
 }
 
 template <typename T>
